@@ -2,7 +2,7 @@
     cardinality requests mean (reference semantics: [csat]/[sat] of Base/Sat.v
     and the number of true variables of a request). *)
 From Coq Require Import String Ascii ZArith List Bool Lia.
-From SP Require Import Base.Sat Core.Card Text.Tok Text.Opb.
+From SP Require Import Base.Sat Core.Card Text.Tok Text.Opb Text.TokProofs.
 Import ListNotations.
 Open Scope Z_scope.
 
@@ -86,8 +86,6 @@ Qed.
 
 (** * Value of the left-hand sides *)
 
-Definition nonzero (c : list Z) : Prop := forall l, In l c -> l <> 0.
-
 Lemma lhs_clause s c :
   nonzero c ->
   pb_lhs s (map term_of c) = zcount (lit_true s) c - zcount (fun v => v <? 0) c.
@@ -169,49 +167,13 @@ Proof.
   rewrite <- relb_rel. split; [now intros [= ->] | now intros ->].
 Qed.
 
-(** The text the code writes today: EQ and LT are right ... *)
-Lemma opb_request_equiv_eq s k vs :
-  pb_line_sat s (opb_request_line (EQ, k, vs)) = Some true <-> count_true s vs = k.
-Proof.
-  unfold opb_request_line. rewrite opb_request_line_sat. cbn [req_holds_with].
-  rewrite <- Z.eqb_eq. split; [now intros [= ->] | now intros ->].
-Qed.
+(** The text the code writes: [gt_rhs k = k + 1], so all three kinds are right. *)
+Lemma gt_rhs_succ k : gt_rhs k = k + 1.
+Proof. reflexivity. Qed.
 
-Lemma opb_request_equiv_lt s k vs :
-  pb_line_sat s (opb_request_line (LT, k, vs)) = Some true <-> count_true s vs < k.
-Proof.
-  unfold opb_request_line. rewrite opb_request_line_sat. cbn [req_holds_with].
-  split; [intros [= H]; apply Z.leb_le in H; lia | intros H; f_equal; apply Z.leb_le; lia].
-Qed.
-
-(** ... and GT means "at least [gt_rhs k]", whatever [gt_rhs] is. *)
-Lemma opb_request_gt_actual s k vs :
-  pb_line_sat s (opb_request_line (GT, k, vs)) = Some true <-> count_true s vs >= gt_rhs k.
-Proof.
-  unfold opb_request_line. rewrite opb_request_line_sat. cbn [req_holds_with].
-  split; [intros [= H]; apply Z.leb_le in H; lia | intros H; f_equal; apply Z.leb_le; lia].
-Qed.
-
-(** Today [gt_rhs k = k - 1]: a count of 0 is accepted as "more than 0". *)
-Lemma opb_gt_refuted :
-  exists s k vs,
-    pb_line_sat s (opb_request_line (GT, k, vs)) = Some true /\ ~ count_true s vs > k.
-Proof.
-  exists (fun _ => false), 0, [1]. split; [vm_compute; reflexivity|].
-  vm_compute. intros H. discriminate H.
-Qed.
-
-(** All kinds at once, on the condition that is exactly the one-token repair. *)
-Lemma opb_request_equiv_if_fixed :
-  (forall k, gt_rhs k = k + 1) ->
-  forall s kd k vs,
-    pb_line_sat s (opb_request_line (kd, k, vs)) = Some true <-> rel kd (count_true s vs) k.
-Proof.
-  intros Hgt s kd k vs. destruct kd; cbn [rel].
-  - apply opb_request_equiv_eq.
-  - apply opb_request_equiv_lt.
-  - rewrite opb_request_gt_actual, Hgt. lia.
-Qed.
+Lemma opb_request_equiv s kd k vs :
+  pb_line_sat s (opb_request_line (kd, k, vs)) = Some true <-> rel kd (count_true s vs) k.
+Proof. exact (opb_request_equiv_fixed s kd k vs). Qed.
 
 (** * Whole files *)
 
@@ -279,33 +241,15 @@ Proof.
   now rewrite pb_file_sat_app, pb_file_sat_opb_lines, pb_file_sat_request_lines.
 Qed.
 
-(** The repaired export accepts exactly the assignments that satisfy the
-    clauses and stand in every request's relation. *)
-Lemma opb_file_equiv_fixed s cls reqs :
+(** The export accepts exactly the assignments that satisfy the clauses and
+    stand in every request's relation to its [k]. *)
+Lemma opb_file_equiv s cls reqs :
   (forall c, In c cls -> nonzero c) ->
-  pb_file_sat s (opb_file_with (fun k => k + 1) cls reqs)
-  = Some (sat s cls && forallb (req_holds s) reqs).
-Proof.
-  intros H. rewrite opb_file_sat_with by exact H. do 2 f_equal.
-  induction reqs as [|r reqs IH]; [reflexivity|].
-  cbn [forallb]. now rewrite IH, req_holds_with_succ.
-Qed.
-
-(** Today's export: right as long as no GT request occurs. *)
-Definition no_gt (reqs : list (kind * Z * list Z)) : Prop :=
-  forall k vs, ~ In (GT, k, vs) reqs.
-
-Lemma opb_file_equiv_no_gt s cls reqs :
-  (forall c, In c cls -> nonzero c) -> no_gt reqs ->
   pb_file_sat s (opb_file cls reqs) = Some (sat s cls && forallb (req_holds s) reqs).
 Proof.
-  intros H G. unfold opb_file. rewrite opb_file_sat_with by exact H. do 2 f_equal.
+  intros H. unfold opb_file, gt_rhs. rewrite opb_file_sat_with by exact H. do 2 f_equal.
   induction reqs as [|r reqs IH]; [reflexivity|].
-  cbn [forallb]. rewrite IH by (intros k vs Hin; apply (G k vs); now right). f_equal.
-  destruct r as [[kd k] vs]. destruct kd; cbn [req_holds_with req_holds relb].
-  - reflexivity.
-  - apply eq_true_iff_eq. rewrite Z.leb_le, Z.ltb_lt. lia.
-  - exfalso. apply (G k vs). now left.
+  cbn [forallb]. now rewrite IH, req_holds_with_succ.
 Qed.
 
 (** * The constraint added between iterations *)
